@@ -55,7 +55,7 @@ def run_case(case):
     bth = ops.mkspace(nq, 0.0, tp, deg, True, kind == 'cu', warp)
     S = refspline.RefSpace(bth)
     cond = S.cond_inf()
-    z = np.arange(nz) * dz
+    z = 0.3 + np.arange(nz) * dz            # zMin != 0
     rgrid = np.array([0.0, 0.25, 0.6])
     eta = [rgrid, np.asarray(bth.greville, dtype=float), z, np.array(VS)]
     lay = Layout('flux_surface', [1, 1], [0, 3, 1, 2], eta, [0, 0])
